@@ -10,22 +10,25 @@ VARIABLES l, r
 
 Id(n) == [i \in 1..n |-> i]
 Num(x) == <<x % 256, x \div 256>>                      \* two-byte little-endian
-Init == l \in 0..MaxL /\ r \in [1..l -> {Num(x) : x \in 0..(l - 1)}]
-Next == UNCHANGED <<l, r>>
+\* the index sequence is built element by element (so that TLC's workers share the enumeration);
+\* the properties speak about complete sequences (Len(r) = l)
+Init == l \in 0..MaxL /\ r = <<>>
+Next == Len(r) < l /\ \E x \in 0..(l - 1) : r' = Append(r, Num(x)) /\ l' = l
 Spec == Init /\ [][Next]_<<l, r>>
+Done == Len(r) = l
 
 RECURSIVE Fact(_)
 Fact(n) == IF n <= 1 THEN 1 ELSE n * Fact(n - 1)
 Canon(n) == {rr \in [1..n -> {Num(x) : x \in 0..(n - 1)}] : \A i \in 1..n : rr[i][1] < n - i + 1}
 
-InvPerm  == LET o == F(Id(l), r) IN Len(o) = l /\ {o[i] : i \in 1..l} = 1..l
-InvHead  == l > 0 => F(Id(l), r)[1] = ModLE(r[1], l) + 1
+InvPerm  == Done => LET o == F(Id(l), r) IN Len(o) = l /\ {o[i] : i \in 1..l} = 1..l
+InvHead  == Done /\ l > 0 => F(Id(l), r)[1] = ModLE(r[1], l) + 1
 \* shuffling a sequence with repeated elements permutes positions: same multiset
-InvDup   == LET s == [i \in 1..l |-> (i - 1) \div 2] IN SameMultiset(F(s, r), s)
+InvDup   == Done => LET s == [i \in 1..l |-> (i - 1) \div 2] IN SameMultiset(F(s, r), s)
 \* adding a multiple of the remaining length to an index changes nothing
-InvModInvariant == LET r2 == [i \in 1..l |-> LE(r[i][1] + 65536 * 3 * (l - i + 1) + 7 * (l - i + 1), 4)]
+InvModInvariant == Done => LET r2 == [i \in 1..l |-> LE(r[i][1] + 65536 * 3 * (l - i + 1) + 7 * (l - i + 1), 4)]
                    IN F(Id(l), r2) = F(Id(l), r)
-InvAllPerms == (\A i \in 1..l : r[i] = Num(0)) =>
+InvAllPerms == (Done /\ \A i \in 1..l : r[i] = Num(0)) =>
                  Cardinality({F(Id(l), rr) : rr \in Canon(l)}) = Fact(l)
 
 ASSUME \A x \in {0, 1, 255, 256, 65535, 65536, 16777215, 16777216, 2147483647}, m \in {1, 2, 3, 7, 8, 1023, 1100, 8388607} :
